@@ -86,17 +86,18 @@ Theorem C19_serialisable_after_edits :
 Proof. exact serialisable_after_edits. Qed.
 Print Assumptions C19_serialisable_after_edits.
 
-Theorem C19_reloadable_after_edits :
+Theorem C19_reloadable_after_edits_partial :
   forall (A : Type) (c_inf c_zero c_one c_tol c_m1 : A) (lower : string -> string)
          (catalog_file : string -> option string -> bool -> string) (I : impl) 
          (es : list (edit A)) (l : lens A),
        wf A lower l ->
        loadable I l = true ->
+       plane_conic I = true \/ forallb (edit_plain A) es = true ->
        decode A c_zero c_one c_tol lower I
          (to_dict A c_inf c_zero c_one c_m1 catalog_file I (fold_left (apply_edit A c_zero) es l)) =
        Some (fold_left (apply_edit A c_zero) es l).
 Proof. exact reloadable_after_edits. Qed.
-Print Assumptions C19_reloadable_after_edits.
+Print Assumptions C19_reloadable_after_edits_partial.
 
 Theorem C19_fixed_serialisable :
   forall (A : Type) (c_inf c_zero c_one c_m1 : A)
